@@ -122,14 +122,16 @@ Section Eval.
     Variable dv : value -> act -> string -> value -> R loc.
     Variable fuel0 : nat.          (* bound for the local loops (chains of dynamic results) *)
 
-    (* toConfig, evaluating dynamic values; None = not a config *)
-    Fixpoint to_cfg_dyn (n : nat) (a : act) (v : loc) {struct n} : R (option value) :=
+    (* toConfig, evaluating dynamic values; None = not a config.  The config is returned where it
+       was found: a reference may lead into another tree (an Env config), and what is read below
+       it is resolved from the root of that tree *)
+    Fixpoint to_cfg_dyn (n : nat) (a : act) (v : loc) {struct n} : R (option loc) :=
       match n with
       | O => OutOfModel
       | S n' =>
         match l_val v with
-        | VSub d0 a0 => Ok (Some (VSub d0 a0), a)
-        | VNil => Ok (Some empty_cfg, a)
+        | VSub _ _ => Ok (Some v, a)
+        | VNil => Ok (Some {| l_root := l_root v; l_path := l_path v; l_val := empty_cfg |}, a)
         | VRef _ _ | VSplice _ =>
           match dv (l_root v) a (l_path v) (l_val v) with
           | Ok (v', a') => to_cfg_dyn n' a' v'
@@ -144,11 +146,14 @@ Section Eval.
     (* field.GetValue with dynamic elements evaluated through toConfig *)
     Definition get_field_dyn (fl : field) (a : act) (elem : loc) : R (res (option loc)) :=
       x <- to_cfg_dyn fuel0 a elem ;;
-      let '(c, a') := x in
+      let '(c, a0) := x in
+      (* every step of a walk is evaluated in a set of its own (cfgPath.GetValue): what it
+         registered is no longer active afterwards *)
+      let a' := if act_marked a0 then act_mark a else a in
       match c with
-      | Some cv =>
-        match get_field fl (l_path elem) cv with
-        | Ok (Some (pp, v)) => Ok (Ok (Some {| l_root := l_root elem; l_path := pp; l_val := v |}), a')
+      | Some cl =>
+        match get_field fl (l_path cl) (l_val cl) with
+        | Ok (Some (pp, v)) => Ok (Ok (Some {| l_root := l_root cl; l_path := pp; l_val := v |}), a')
         | Ok None => Ok (Ok None, a')
         | Err e p => Ok (Err e p, a')
         | Panic => Panic
